@@ -33,6 +33,11 @@ def cases(tier, seed):
     for i in range(n):
         vs = ['S'] + rng.sample(TOK_VARS[1:], rng.choice([0, 1, 2])); ts = rng.sample(TOK_TERMS, rng.choice([1, 2, 3]))
         yield {'kind': 'cfg', 'G': C.to_json(C.random_grammar(rng, vs, ts, 3, rng.choice([1, 2, 3, 4])))}
+    rng_sv = random.Random(seed * 2999 + 13)
+    for i in range(n // 3):
+        # a variable and a terminal spelled alike (the VAR: / TER: markers are what tells them apart in the text form)
+        vs = ['S'] + rng_sv.sample(['A', 'b', 'x1'], rng_sv.choice([1, 2])); ts = rng_sv.sample(['A', 'b', 'x1', 'a', 'S'], rng_sv.choice([2, 3]))
+        yield {'kind': 'cfg', 'G': C.to_json(C.random_grammar(rng_sv, vs, ts, 3, rng_sv.choice([2, 3, 4])))}
     for i in range(n // 2):
         heads = ['S'] + rng.sample(['A', 'B', 'Cc'], rng.choice([0, 1, 2]))
         lines = []
